@@ -50,7 +50,7 @@ theorem fireOne_pres {P : WM → Prop} (hp : Pres P) (e : Engine) (a : Act) (he 
         simp only
         split
         · exact he
-        · have h1 : P ({ e with wm := writeBack e.wm rule.ty rule.action.sets } : Engine).propagateAll.wm := by
+        · have h1 : P ({ e with wm := writeBack e.wm rule.ty (e.setsOf rule) } : Engine).propagateAll.wm := by
             rw [propagateAll_wm]; exact hp.wb _ _ _ he
           simp only
           split
